@@ -1,4 +1,4 @@
 From Coq Require Import Extraction ExtrOcamlBasic.
-From HQ Require Import Base.Prelude Cluster.Types Cluster.Core Cluster.Reactor Cluster.Worker Cluster.Server Cluster.Sys Cluster.Monitors Cluster.RejHyp Cluster.NoPanicU0 Cluster.NoPanicS7 Cluster.RetractFree.
+From HQ Require Import Base.Prelude Cluster.Types Cluster.Core Cluster.Reactor Cluster.Worker Cluster.Server Cluster.Sys Cluster.Monitors Cluster.RejHyp Cluster.NoPanicU0 Cluster.NoPanicS7 Cluster.RetractFree Cluster.Wake.
 Extraction Language OCaml.
-Extraction "/verif/ocaml/cluster/gen/cluster_model.ml" step init_sys run step_fresh core_ok core_ok_which accounting_bad_workers hq_ok hq_core_bijection_ok single_execution_ok terminal_once finish_after_start deps_respected journal_dep_closed instances_increase no_start_after_giveup cancel_final completed_once abort_justified job_counters_ok job_completed_ok proto_ok proto_why proto_culprits op_ok sol_ok worker_is_free retracting_from sched_retract_ok.
+Extraction "/verif/ocaml/cluster/gen/cluster_model.ml" step init_sys run step_fresh core_ok core_ok_which accounting_bad_workers hq_ok hq_core_bijection_ok single_execution_ok terminal_once finish_after_start deps_respected journal_dep_closed instances_increase no_start_after_giveup cancel_final completed_once abort_justified job_counters_ok job_completed_ok proto_ok proto_why proto_culprits op_ok sol_ok worker_is_free retracting_from sched_retract_ok wake_inv placeable sched_complete.
